@@ -339,7 +339,10 @@ func (s *muxerStream) handleMediaPlaylist(w http.ResponseWriter, r *http.Request
 						return nil
 					}
 
-					if s.hasContent() && s.hasPart(msnint, partint) {
+					// without _HLS_part, the whole segment must be complete
+					if s.hasContent() &&
+						((part != "" && s.hasPart(msnint, partint)) ||
+							(part == "" && msnint < s.nextSegmentID)) {
 						break
 					}
 
